@@ -36,6 +36,7 @@ const (
 	KReturn  = "return"
 	KRaise   = "raise"
 	KErrNew  = "errnew" // XErr.new("msg") as an expression (raises at construction)
+	KNat     = "nat"    // an expression the interpreter itself fails on: Names[0] = source, Str = kind, Msg = message
 	KIter    = "iter"   // <{|i| pre; yield i if i < Int; post; recur(i + 1)}>.new(0)   (L = pre, Post = post statements)
 	KTry     = "try"    // recv.try.{|x| body}.<accessor Str: val | or | err?>  (C = default of or)
 	KProgram = "program"
@@ -329,6 +330,8 @@ func printExpr(sb *strings.Builder, n *N, depth int) {
 		sb.WriteString(n.Str)
 	case KErrNew:
 		fmt.Fprintf(sb, "%s.new(%q)", n.Str, n.Msg)
+	case KNat:
+		sb.WriteString("(" + n.Names[0] + ")")
 	case KFunc:
 		if n.Method {
 			sb.WriteString("m")
